@@ -1,7 +1,9 @@
+#![allow(dead_code)]
 //! Shared simulation core, included by path into each engine binary (each engine links its own
 //! build of `lean_string`: hooked, hooked + scheduler atomics, or untouched for Miri).
 
 pub mod rng;
+pub mod yieldp;
 pub mod heapcfg;
 #[cfg(feature = "hooks")]
 pub mod heap;
@@ -15,3 +17,5 @@ pub mod run;
 pub mod scen;
 pub mod shrink;
 pub mod work;
+#[cfg(feature = "conc")]
+pub mod conc;
